@@ -1,6 +1,7 @@
 /- C05 — transaction lifecycle. -/
 import HtpModel.Lemmas.Conn
 import HtpModel.Lemmas.EventsMonoOut
+import HtpModel.Lemmas.ProgMonoOut
 
 namespace Htp.C05
 open Htp.Conn Htp.Gen
@@ -82,5 +83,17 @@ theorem C05_history_log_append_only (cfg : Cfg) (c0 : Conn) (calls pre : List Ca
 example :
     (runCalls {} {} [.open, .req (b!"GET / HTTP/1.1\r\nHost: h\r\n\r\n"), .res (b!"HTTP/1.1 200 OK\r\nContent-Length: 5\r\n\r\nhello")]).cbCount = 15 := by
   decide
+
+/-- **C05 (request progress over whole histories, PARTIAL)**: the full statement - "the request progress of a transaction never goes backwards, for
+    every call history" - is NOT proved: several writers set a constant without a guard on the current value (REQ_PROTOCOL writes HEADERS,
+    REQ_BODY_DETERMINE writes BODY, ...), so monotonicity needs an invariant that bounds the progress of the current transaction by the parser
+    state, which was not established (no history on which the progress goes backwards was found either; on the implementation that is what the
+    Monitor's `req-progress-back` rule decides - it reported seeded change C05e). What IS proved for every history and prefix
+    (`Lemmas/ProgMono*.lean`): a transaction that has started stays started, and its phase number stays within 1..5. -/
+theorem C05_history_req_progress_partial (cfg : Cfg) (policy : List (Nat × CbAction)) (calls pre : List Call) (hp : pre <+: calls)
+    (u : Nat) (t t' : Tx) (h1 : (runCalls cfg { policy := policy } pre).findTx u = some t)
+    (h2 : (runCalls cfg { policy := policy } calls).findTx u = some t') :
+    (1 ≤ t.reqProgress → 1 ≤ t'.reqProgress) ∧ (t.reqProgress ≤ 5 → t'.reqProgress ≤ 5) :=
+  ⟨history_req_progress_started cfg policy calls pre hp h1 h2, history_req_progress_bounded cfg policy calls pre hp h1 h2⟩
 
 end Htp.C05
